@@ -74,7 +74,8 @@ def map_new(I, c):
 
 @model_re(r'^(cw_storage_plus::)?IndexedMap::new$')
 def indexed_map_new(I, c):
-    return St('IndexedMap', [deref(c.args[0]), c.args[1]])
+    ns = deref(c.args[0])
+    return St('IndexedMap', [ns, St('Map', [ns]), c.args[1]], ['pk_namespace', 'primary', 'idx'])
 
 
 @model_re(r'^(cw_storage_plus::)?(UniqueIndex|MultiIndex)::new$')
